@@ -690,6 +690,18 @@ O(id='BOOLEAN_compare', props=['C01', 'C19'], entry='h_BOOLEAN_compare', enforce
 O(id='NULL_compare', props=['C01', 'C19'], entry='h_NULL_compare', enforce=['NULL_compare'], functions=['NULL_compare'], units=[SK + 'NULL.c'], link=[SK + 'NULL.c'], bound='loop-free', **LF)
 O(id='NativeInteger_compare', props=['C01', 'C13', 'C19'], entry='h_NativeInteger_compare', enforce=['NativeInteger_compare'], functions=['NativeInteger_compare'], units=[SK + 'NativeInteger.c'], link=[SK + 'NativeInteger.c'], bound='loop-free; every pair of long / unsigned long values / NULL', **LF)
 
+SQF = dict(harness='harness/h_seqof_enc.c', units=[SK + 'constr_SEQUENCE_OF.c', SK + 'constr_SET_OF_oer.c', SK + 'constr_SET_OF.c', SK + 'der_encoder.c'],
+           link=[SK + 'constr_SEQUENCE_OF.c', SK + 'constr_SET_OF.c', SK + 'asn_SET_OF.c', SK + 'asn_SEQUENCE_OF.c', SK + 'der_encoder.c', SK + 'ber_tlv_tag.c', SK + 'ber_tlv_length.c', SK + 'oer_support.c'],
+           stubs=['stubs/realloc64.c'], defines=['VF_CB_CAP=12'],
+           fp_restrict=[(r'der_encoder\)$', ['sv_der']), (r'oer_encoder\)$', ['sv_oenc']), (r'oer_decoder\)$', ['sv_odec']), (r'free_struct\)$', ['sv_free']), (r'::cb$', ['vf_cb'])],
+           trusted=['element type is a harness stub', 'stubs/realloc64.c'])
+O(id='SEQUENCE_OF_encode_der.n3', props=['C02', 'C07'], kind='bounded', entry='h_SEQUENCE_OF_encode_der', functions=['SEQUENCE_OF_encode_der', 'der_write_tags'],
+  unwind=14, cbmc=['--unwindset', 'realloc.0:66', '--no-malloc-may-fail'], bound='lists of at most 3 stub elements, every callback failure point', min_props=40, timeout=600, **SQF)
+for _c in (0, 1, 2, 3):
+    O(id='SET_OF_oer_roundtrip.n%d' % _c, props=['C01', 'C02', 'C07'], kind='bounded', entry='h_SET_OF_oer_roundtrip', functions=['SET_OF_encode_oer', 'oer_put_quantity', 'SET_OF_decode_oer', 'oer_fetch_quantity'],
+      unwind=6, cbmc=['--unwindset', 'realloc.0:66,oer_fetch_length.0:10,oer_fetch_length.1:10,oer_fetch_quantity.0:10,oer_fetch_quantity.1:10,vf_cb.0:14,oer_put_quantity.0:10', '--no-malloc-may-fail'], bound='lists of exactly %d stub elements' % _c, min_props=40, timeout=600,
+      **dict(SQF, defines=['VF_CB_CAP=12', 'VF_COUNT=%d' % _c]))
+
 for _o in OBLIGATIONS:
     if _o.get('enforce') and _o.get('kind') in ('enforce', 'width') and _o.get('tier') == 'quick' and 'C19' not in _o['props']:
         _o['props'] = _o['props'] + ['C19']
